@@ -207,6 +207,7 @@ fn native_alloc(vm: &mut VM, args: &[Value]) -> Result<Value, RuntimeError> {
             format!("size {} exceeds max {}", size, MAX_ALLOC),
         ));
     }
+    vm.charge_byte_buffer(size as usize)?;
     let handle = vm.store_resource(Resource::ByteBuffer(ByteBuffer {
         data: vec![0u8; size as usize],
     }));
@@ -220,8 +221,10 @@ fn native_free(vm: &mut VM, args: &[Value]) -> Result<Value, RuntimeError> {
     let h = get_handle(vm, args[0], "free")?;
     // look before taking: a resource of another kind (file, timer, socket) must survive the refusal
     match vm.get_resource(h) {
-        Some(Resource::ByteBuffer(_)) => {
+        Some(Resource::ByteBuffer(buf)) => {
+            let held = buf.data.len();
             vm.take_resource(h);
+            vm.release_byte_buffer(held);
             Ok(Value::null())
         }
         Some(_) => Err(err(vm, "free", "not a byte buffer".into())),
@@ -251,8 +254,17 @@ fn native_resize(vm: &mut VM, args: &[Value]) -> Result<Value, RuntimeError> {
             format!("size {} exceeds max {}", new_size, MAX_ALLOC),
         ));
     }
+    let new_size = new_size as usize;
+    let old_size = get_buf_len(vm, h, "resize")?;
+    if new_size > old_size {
+        vm.charge_byte_buffer(new_size - old_size)?;
+    }
     if let Some(Resource::ByteBuffer(buf)) = vm.get_resource_mut(h) {
-        buf.data.resize(new_size as usize, 0);
+        buf.data.resize(new_size, 0);
+        if new_size < old_size {
+            buf.data.shrink_to_fit();
+            vm.release_byte_buffer(old_size - new_size);
+        }
         Ok(Value::null())
     } else {
         Err(err(vm, "resize", "invalid handle".into()))
@@ -261,9 +273,12 @@ fn native_resize(vm: &mut VM, args: &[Value]) -> Result<Value, RuntimeError> {
 
 fn native_clone(vm: &mut VM, args: &[Value]) -> Result<Value, RuntimeError> {
     let h = get_handle(vm, args[0], "clone")?;
+    let len = get_buf_len(vm, h, "clone")?;
+    vm.charge_byte_buffer(len)?;
     let data = if let Some(Resource::ByteBuffer(buf)) = vm.get_resource(h) {
         buf.data.clone()
     } else {
+        vm.release_byte_buffer(len);
         return Err(err(vm, "clone", "invalid handle".into()));
     };
     let handle = vm.store_resource(Resource::ByteBuffer(ByteBuffer { data }));
@@ -712,15 +727,16 @@ fn native_fill(vm: &mut VM, args: &[Value]) -> Result<Value, RuntimeError> {
 }
 
 fn native_from_string(vm: &mut VM, args: &[Value]) -> Result<Value, RuntimeError> {
-    let s = get_string(vm, args[0], "from_string")?;
-    let data = s.as_bytes().to_vec();
-    if data.len() > MAX_ALLOC {
+    let len = get_string(vm, args[0], "from_string")?.len();
+    if len > MAX_ALLOC {
         return Err(err(
             vm,
             "from_string",
-            format!("string length {} exceeds max {}", data.len(), MAX_ALLOC),
+            format!("string length {} exceeds max {}", len, MAX_ALLOC),
         ));
     }
+    vm.charge_byte_buffer(len)?;
+    let data = get_string(vm, args[0], "from_string")?.as_bytes().to_vec();
     let handle = vm.store_resource(Resource::ByteBuffer(ByteBuffer { data }));
     Ok(Value::int(handle as i64))
 }
